@@ -175,6 +175,8 @@ impl From<&[Term]> for NoGood {
 pub struct NoGoodStore {
     store: Vec<Vec<NoGood>>,
     duplicates: DuplicateElemination,
+    /// Set once the empty [NoGood], which is violated by every [Interpretation], has been added.
+    unsatisfiable: bool,
 }
 
 impl Display for NoGoodStore {
@@ -194,6 +196,7 @@ impl NoGoodStore {
         Self {
             store: vec![Vec::new(); size as usize],
             duplicates: DuplicateElemination::Equiv,
+            unsatisfiable: false,
         }
     }
 
@@ -211,6 +214,9 @@ impl NoGoodStore {
     /// Adds a given [NoGood]
     pub fn add_ng(&mut self, nogood: NoGood) {
         let mut idx = nogood.len();
+        if idx == 0 {
+            self.unsatisfiable = true;
+        }
         if idx > 0 {
             idx -= 1;
             if match self.duplicates {
@@ -247,6 +253,9 @@ impl NoGoodStore {
     /// Draws a (Conclusion)[NoGood], based on the [NoGoodStore] and the given [NoGood].
     /// *Returns* [None] if there is a conflict
     pub fn conclusions(&self, nogood: &NoGood) -> Option<NoGood> {
+        if self.unsatisfiable {
+            return None;
+        }
         let mut result = nogood.clone();
         log::trace!("ng-store: {:?}", self.store);
         self.store
